@@ -107,12 +107,15 @@ func (c09Prop) Generate(seed uint64, idx int, tier string) *Plan {
 				}
 			} else {
 				// one record whose encoding has exactly L bytes: ID varint (1 byte for small IDs) + length varint + pad
-				L := r.PickInt([]int{63, 64, 65, 127, 128, 129, 8191, 8192, 8193, 16383, 16384, 16385})
+				L := r.PickInt([]int{63, 64, 65, 127, 128, 129, 8191, 8192, 8193, 16383, 16384, 16385, 32767, 32768, 65535, 65536, 65537, 1<<20 - 1, 1 << 20, 1<<20 + 1})
 				pad := L - 2
 				if pad >= 64 {
 					pad--
 				}
 				if pad >= 8192 {
+					pad--
+				}
+				if pad >= 1<<20 {
 					pad--
 				}
 				pl.Ops = append(pl.Ops, C09Op{Pad: pad})
